@@ -271,17 +271,30 @@ func TestVerif_C03(t *testing.T) {
 	sb.WriteString("From KM Require Import Base.Cases Model.Lifetime.\nFrom KMW Require Import gen.Consts.\nOpen Scope Z_scope.\n")
 	sb.WriteString("(* (has duration field, parse error, requested ns, iat s, t0 s, t1 s, issued, not_before s, not_after s) *)\n")
 	sb.WriteString("Definition c03_bad (c : bool * bool * Z * Z * Z * Z * bool * Z * Z) : bool :=\n  let '(has, perr, r, iat, t0, t1, issued, va, vb) := c in\n  if perr then issued else negb (ssh_obs_ok maxCertificateLifetime_ns (if has then Some r else None) iat t0 t1 issued va vb).\n")
-	sb.WriteString("Definition cases : list (bool * bool * Z * Z * Z * Z * bool * Z * Z) := [\n")
-	for i, o := range all {
-		sep := ";"
-		if i == len(all)-1 {
-			sep = ""
+	// sharded: one list literal of tens of thousands of tuples overflows coqc's stack (thorough tier)
+	const c03Shard = 2000
+	var shardNames []string
+	for i := 0; i < len(all); i += c03Shard {
+		end := i + c03Shard
+		if end > len(all) {
+			end = len(all)
 		}
-		vb := o.vb
-		sb.WriteString(fmt.Sprintf(" (%s,%s,%s,%s,%s,%s,%s,%s,%s)%s\n", coqBool(o.hasDur), coqBool(o.parseErr), coqZ(o.requested), coqZ(o.iat), coqZ(o.t0), coqZ(o.t1), coqBool(o.issued), coqZ(o.va), coqZ(vb), sep))
+		name := fmt.Sprintf("cases%d", i/c03Shard)
+		shardNames = append(shardNames, name)
+		sb.WriteString("Definition " + name + " : list (bool * bool * Z * Z * Z * Z * bool * Z * Z) := [\n")
+		for j := i; j < end; j++ {
+			o := all[j]
+			sep := ";"
+			if j == end-1 {
+				sep = ""
+			}
+			sb.WriteString(fmt.Sprintf(" (%s,%s,%s,%s,%s,%s,%s,%s,%s)%s\n", coqBool(o.hasDur), coqBool(o.parseErr), coqZ(o.requested), coqZ(o.iat), coqZ(o.t0), coqZ(o.t1), coqBool(o.issued), coqZ(o.va), coqZ(o.vb), sep))
+		}
+		sb.WriteString("].\n")
 	}
-	sb.WriteString("].\nDefinition c03_mismatches := Eval vm_compute in mismatches c03_bad cases.\nPrint c03_mismatches.\n")
-	sb.WriteString("Definition c03_ncases := Eval vm_compute in length cases.\nPrint c03_ncases.\n")
+	allCases := "(" + strings.Join(shardNames, " ++ ") + ")"
+	sb.WriteString("Definition c03_mismatches := Eval vm_compute in mismatches c03_bad " + allCases + ".\nPrint c03_mismatches.\n")
+	sb.WriteString("Definition c03_ncases := Eval vm_compute in length " + allCases + ".\nPrint c03_ncases.\n")
 	sb.WriteString("(* role-requesting / refresh: observed validity length is positive and at most the regenerated maximum *)\n")
 	sb.WriteString("Definition role_cases : list (bool * Z) := [")
 	for i, o := range roleObs {
